@@ -159,16 +159,19 @@ PROPS = {
         "not_covered": ["component_decomposition body (fold with &mut-capturing closure)", "Compiler::compile (default instance) vs Composer::prove pairing"],
     },
     "C08": {
-        "v_units": ["composer_base.py", "composer_bits_select.py"],
+        "v_units": ["composer_base.py", "composer_bits_select.py", "gadget_lemmas.py"],
         "r": [("composer_leaves", None)],
         "claim": "code contracts (CANON model, all field values, all selector tuples): the Constraint builder, append_gate, "
                  "append_evaluated_output (all three q_O paths: exactly one row, output witness c with q_O*c + x = 0 mod r, None iff q_O = 0), "
                  "gate_add/gate_mul (returned witness == x), assert_equal, assert_equal_constant, append_constant, append_public, "
-                 "component_boolean, component_select/_one/_zero push exactly the documented coefficient tuples and honest witness values.",
+                 "component_boolean, component_select/_one/_zero push exactly the documented coefficient tuples and honest witness values; "
+                 "semantic lemmas over those rows (R prime as the only axiom): boolean row <=> w in {0,1}; assert_equal row <=> equal; "
+                 "assert_equal_constant row <=> w == k + PI; gate_add/gate_mul row <=> output == x; output wire uniquely determined whenever "
+                 "q_O != 0; component_select rows => out == bit*a + (1-bit)*b; select_one / select_zero rows <=> 1 - bit + bit*v / bit*v.",
         "technique": "contract-based deductive verification: Verus on the real functions annotated in place (overlay)",
         "level_note": "Assumed leaves: Composer::{append_witness_internal, append_custom_gate_internal, constraints, Index<Witness>} "
                       "(hashbrown map inside), BlsScalar field axioms (CANON), two Runtime::event cuts. "
-                      "The row-level iff lemmas (row_sat <=> relation) are a separate obligation group.",
+                      "Lemmas are about the arithmetic-row identity arith_sat (= the polynomial R units tie the real widget to, C05/C03); axiom: R is prime.",
         "design_ref": "DESIGN.md §4 C08",
         "assumptions": A_VERUS + ["CANON model of BlsScalar (specs/verus/field.rs): cv in [0,r), + - * neg mod r, From<u64>, ==, invert"],
         "trusted": T_VERUS,
@@ -271,18 +274,22 @@ PROPS = {
     },
     "C17": {
         "v_units": ["decoders.py", "compress.py"],
+        "r": [("kzg", lambda n: "from_raw_var_bytes" in n), ("verifier", lambda n: n == "verifier.new")],
         "claim": "totality of the length-field / section parsing for ALL byte strings of ANY length (no bound): Verifier::try_from_bytes and "
                  "Prover::try_from_bytes never index out of bounds and never overflow (48-byte header, checked sums, required_len guard before "
-                 "every slice); PackedCircuitReader::{take, unpack_array_len} and packed_size_limit likewise.",
+                 "every slice); PackedCircuitReader::{take, unpack_array_len} and packed_size_limit likewise; "
+                 "CommitKey::from_raw_var_bytes accepts a key only if EVERY decoded point individually passed is_on_curve & is_torsion_free "
+                 "(generic loop iteration as one trace event) and rejects the first failing point with Err(PointMalformed); "
+                 "Verifier::new derives exactly one root per public-input index by pow (no index-sized allocation).",
         "technique": "contract-based deductive verification: Verus on the real decoders annotated in place (overlay), callee wrappers for "
-                     "dependency decoders",
+                     "dependency decoders; ring/trace checker for the per-point validity loop",
         "level_note": "Assumed (callee wrappers, listed in the evidence): VerifierKey/OpeningKey/ProverKey::from_slice, CommitKey::from_raw_var_bytes, "
                       "Verifier::new / Prover::new are total; u64::from_be_bytes; AsRef<[u8]>. NOT covered: validity of accepted points, allocation "
                       "bounds of the callee decoders, Proof::from_bytes, PublicParameters::from_slice, CompressedCircuit::from_bytes.",
         "design_ref": "DESIGN.md §4 C17",
-        "assumptions": A_VERUS,
-        "trusted": T_VERUS,
-        "not_covered": ["point validity of accepted data", "ProverKey::from_slice, CommitKey decoders, Proof::from_bytes, CompressedCircuit::from_bytes bodies"],
+        "assumptions": A_VERUS + A_RING,
+        "trusted": T_VERUS + T_RING,
+        "not_covered": ["ProverKey::from_slice, CommitKey::from_slice, Proof::from_bytes, PublicParameters::from_slice, CompressedCircuit::from_bytes bodies"],
     },
     "C20": {
         "v_units": ["capacity.py"],
